@@ -431,3 +431,16 @@ pub proof fn lemma_has_view_insert(s: Set<DeltaId>, d: DeltaId, v: DidV)
     if has_view(s, v) { let a = choose|a: DeltaId| s.contains(a) && a@ == v; assert(s.insert(d).contains(a) && a@ == v); }
     if d@ == v { assert(s.insert(d).contains(d) && d@ == v); }
 }
+/// what `DeltaId::new_from_anchors` guarantees is the index rule over the parents' views
+pub proof fn lemma_expected_index(ps: Set<DeltaId>, e: u32)
+    requires
+        forall|a: DeltaId| ps.contains(a) ==> a.0 < e,
+        exists|a: DeltaId| ps.contains(a) && a.0 + 1 == e,
+    ensures index_rule(e, |v: DidV| has_view(ps, v)),
+{
+    let f = |v: DidV| has_view(ps, v);
+    assert forall|v: DidV| #[trigger] f(v) implies v.0 < e by { let a = choose|a: DeltaId| ps.contains(a) && a@ == v; }
+    let a = choose|a: DeltaId| ps.contains(a) && a.0 + 1 == e;
+    assert(has_view(ps, a@));
+    assert(f(a@) && a@.0 + 1 == e);
+}
